@@ -26,6 +26,8 @@ pub enum Outcome {
     Hung(String),
     /// logical deadlock of a future: pending, nothing left to release, not notified
     Deadlock(String),
+    /// the macro's future was dropped by the harness at a quiescent pending point (`Sched::cancel_at`)
+    Cancelled,
 }
 
 #[derive(Clone, Debug)]
@@ -66,6 +68,10 @@ pub struct Sched {
     /// `block_on`; 9 `futures::executor::LocalPool::run_until`. Task kinds again: 10 / 11 polled by tokio (current-thread /
     /// multi-thread) next to a sibling future that exhausts the task's cooperative-scheduling budget in every poll.
     pub poll_ctx: u8,
+    /// async kinds, gated runs: at the n-th decision point (root pending, quiescent; 1-based, 0 = never) the macro's future
+    /// is dropped instead of releasing a gate. Every value the future owned must be dropped with it (non-spawning kinds:
+    /// at once; task kinds: at the latest when the detached tasks have run out and the runtime is gone)
+    pub cancel_at: usize,
 }
 
 pub struct RunRec {
@@ -631,6 +637,22 @@ pub fn run_async_plain(case: &Case, exp: &Exp, plan: &Plan, sched: &Sched) -> Ru
             if let Poll::Ready(o) = fut.as_mut().poll(&mut cx) {
                 return Outcome::Done(o);
             }
+            if sched.cancel_at != 0 && d.decisions + 1 == sched.cancel_at && wk.0.load(Ordering::SeqCst) == seen {
+                // cancellation: the future is pending and not notified; drop it where it stands
+                let held = gate::arrived().len();
+                let before = log::len();
+                drop(fut);
+                let live = crate::tok::live();
+                if live != 0 {
+                    d.notes.push(Note { prop: "C10", msg: format!("{} value token(s) still alive right after the macro's future was dropped at a pending point (decision {}, {} gate(s) reached): a cancelled future must drop everything it owns exactly once", live, sched.cancel_at, held) });
+                }
+                // the wakers stored by the gates are called now; nothing may run any more
+                gate::open_all();
+                if log::len() != before {
+                    d.notes.push(Note { prop: "C10", msg: format!("{} event(s) logged after the macro's future was dropped (a non-spawning macro owns all of its work)", log::len() - before) });
+                }
+                return Outcome::Cancelled;
+            }
             let c = wk.0.load(Ordering::SeqCst);
             if c > seen {
                 // woken during its own poll: poll again
@@ -666,7 +688,7 @@ pub fn run_async_plain(case: &Case, exp: &Exp, plan: &Plan, sched: &Sched) -> Ru
         Err(e) => Outcome::Panicked(panic_msg(e)),
     };
     gate::open_all();
-    let quiesced = crate::tok::live() == 0;
+    let quiesced = crate::tok::live() == 0 || outcome == Outcome::Cancelled;
     let (l, st) = split_log();
     RunRec { outcome, log: l, stale: st, notes: d.notes, caller_thr, polls, decisions: d.decisions, max_held: d.max_held, quiesced, held_at_result: 0 }
 }
@@ -683,12 +705,28 @@ struct TaskDriver<'a, 'b> {
     polls: &'b mut usize,
     rounds: usize,
     awaiting_wake: Option<(Vec<u16>, usize)>,
+    /// the root future was dropped (`Sched::cancel_at`); the detached tasks run out, then the driver ends
+    cancelled: bool,
 }
 impl<'a, 'b> Future for TaskDriver<'a, 'b> {
     type Output = Outcome;
     fn poll(self: Pin<&mut Self>, cx: &mut Context<'_>) -> Poll<Outcome> {
         let this = self.get_mut();
         this.rounds += 1;
+        if this.cancelled {
+            let progress = log::len();
+            if progress != this.last_progress {
+                this.last_progress = progress;
+                this.idle = 0;
+            } else {
+                this.idle += 1;
+            }
+            if this.idle >= 6 {
+                return Poll::Ready(Outcome::Cancelled);
+            }
+            cx.waker().wake_by_ref();
+            return Poll::Pending;
+        }
         if this.fut.is_none() {
             let f = (this.mk)();
             if log::len() != 0 {
@@ -749,6 +787,15 @@ impl<'a, 'b> Future for TaskDriver<'a, 'b> {
                         this.d.notes.push(Note { prop: "C09", msg: "future became ready on a spurious poll although nothing was released or notified".into() });
                         return Poll::Ready(Outcome::Done(o));
                     }
+                }
+                if this.d.sched.cancel_at != 0 && this.d.decisions + 1 == this.d.sched.cancel_at {
+                    // cancellation at a quiescent point: drop the macro's future, let the detached tasks run out
+                    this.fut = None;
+                    this.cancelled = true;
+                    this.last_progress = log::len();
+                    gate::open_all();
+                    cx.waker().wake_by_ref();
+                    return Poll::Pending;
                 }
                 match this.d.decide() {
                     Next::Deadlock(m) => return Poll::Ready(Outcome::Deadlock(m)),
@@ -814,7 +861,7 @@ pub fn run_async_tasks(case: &Case, exp: &Exp, plan: &Plan, sched: &Sched) -> Ru
         }
     }
     let r = catch_unwind(AssertUnwindSafe(|| {
-        let drv = TaskDriver { mk, fut: pre, d: &mut d, wk: Arc::new(CountWaker(AtomicUsize::new(0))), seen: 0, first: true, idle: 0, last_progress: 0, polls: &mut polls, rounds: 0, awaiting_wake: None };
+        let drv = TaskDriver { mk, fut: pre, d: &mut d, wk: Arc::new(CountWaker(AtomicUsize::new(0))), seen: 0, first: true, idle: 0, last_progress: 0, polls: &mut polls, rounds: 0, awaiting_wake: None, cancelled: false };
         rt.block_on(drv)
     }));
     let outcome = match r {
@@ -826,6 +873,9 @@ pub fn run_async_tasks(case: &Case, exp: &Exp, plan: &Plan, sched: &Sched) -> Ru
     drop(rt);
     drop(other_rt);
     let quiesced = crate::tok::live() == 0;
+    if outcome == Outcome::Cancelled && !quiesced {
+        d.notes.push(Note { prop: "C10", msg: format!("{} value token(s) still alive after the macro's future was dropped at a pending point (decision {}), its detached tasks ran out and the runtime was dropped", crate::tok::live(), sched.cancel_at) });
+    }
     let (l, st) = split_log();
     RunRec { outcome, log: l, stale: st, notes: d.notes, caller_thr, polls, decisions: d.decisions, max_held: d.max_held, quiesced, held_at_result: 0 }
 }
